@@ -107,6 +107,25 @@ func runC18(c *Ctx) {
 		if v != "ok" {
 			continue
 		}
+		// the same SIG value signs again (another message, and the same one): every output verifies
+		{
+			s := mk(alg, key.KeyTag())
+			okAll, detail := true, ""
+			for round := 0; round < 3; round++ {
+				m2 := m.Copy()
+				m2.Id = uint16(int(m.Id) + round)
+				o, err := s.Sign(k.signer, m2)
+				if err != nil {
+					okAll, detail = false, fmt.Sprintf("round %d sign: %v", round, err)
+					break
+				}
+				if v2 := verify(o, key); v2 != "ok" {
+					okAll, detail = false, fmt.Sprintf("round %d verify: %s", round, v2)
+					break
+				}
+			}
+			c.Pred("verify", "sig-value-reused", fmt.Sprintf("alg=%d %s", alg, in), okAll, detail, "every round verifies", true)
+		}
 		// wrong key / signer name
 		other := keyRRFrom(keys[alg].key)
 		other.Hdr.Name = "other.example."
